@@ -946,6 +946,51 @@ int main(int argc, char** argv) {
                 if (okk) { log.ok(); ++stats["history"]; }
             }
         }
+        // (d) definedness histories: a well-level DEFINE whose elements become undefined and defined again
+        //     over the report steps, read back from UDQState and through dependent DEFINEs (the value of a
+        //     quantity at each report step; undefined elements propagate, also across steps)
+        {
+            int nh = thorough ? 1500 : 300;
+            for (int k = 0; k < nh; ++k) {
+                UDQParams udqp;
+                UDQConfig cfg(udqp);
+                SummaryState st(TimeService::now(), udqp.undefinedValue());
+                UDQState udq_state(udqp.undefinedValue());
+                int nw = rng.range(2, 4);
+                Strs wells; for (int w = 0; w < nw; ++w) wells.push_back("P" + std::to_string(w + 1));
+                WellMatcher wm{ NameOrder(wells) };
+                KeywordLocation loc;
+                const int c = rng.range(2, 6);
+                // WUA = 1 / (WOPR - c): undefined (division by zero) exactly where WOPR == c
+                cfg.add_define("WUA", loc, Strs{ "1", "/", "(", "WOPR", "-", std::to_string(c), ")" }, 0);
+                cfg.add_define("WUB", loc, Strs{ "WUA", "+", "10" }, 0);
+                cfg.add_define("FUS", loc, Strs{ "SUM", "(", "WUA", ")" }, 0);
+                std::string trace = "c=" + std::to_string(c);
+                int steps = rng.range(2, 5);
+                bool okk = true;
+                for (int sidx = 0; sidx < steps && okk; ++sidx) {
+                    std::vector<int> wopr(nw);
+                    trace += " step" + std::to_string(sidx) + ":";
+                    for (int w = 0; w < nw; ++w) { wopr[w] = rng.coin(2, 5) ? c : rng.range(c + 1, c + 9); st.update_well_var(wells[w], "WOPR", wopr[w]); trace += " " + std::to_string(wopr[w]); }
+                    cfg.eval(static_cast<size_t>(sidx), wm, {}, {}, st, udq_state);
+                    double sum = 0; int ndef = 0;
+                    for (int w = 0; w < nw && okk; ++w) {
+                        bool def = wopr[w] != c;
+                        double want = def ? 1.0 / (wopr[w] - c) : 0.0;
+                        if (def) { sum += want; ++ndef; }
+                        bool hasA = udq_state.has_well_var(wells[w], "WUA"), hasB = udq_state.has_well_var(wells[w], "WUB");
+                        if (hasA != def) { okk = false; log.fail("definedness-history", trace + " : WUA(" + wells[w] + ") is " + (hasA ? "defined" : "undefined") + " in UDQState, expected " + (def ? "defined" : "undefined")); break; }
+                        if (hasB != def) { okk = false; log.fail("definedness-history", trace + " : WUB=WUA+10 at " + wells[w] + " is " + (hasB ? "defined" : "undefined") + ", expected " + (def ? "defined" : "undefined")); break; }
+                        if (def && std::fabs(udq_state.get_well_var(wells[w], "WUA") - want) > 1e-12) { okk = false; log.fail("definedness-history", trace + " : WUA(" + wells[w] + ") value"); break; }
+                        if (def && std::fabs(udq_state.get_well_var(wells[w], "WUB") - (want + 10)) > 1e-12) { okk = false; log.fail("definedness-history", trace + " : WUB(" + wells[w] + ") value"); break; }
+                    }
+                    if (okk && ndef > 0) {
+                        if (!udq_state.has("FUS") || std::fabs(udq_state.get("FUS") - sum) > 1e-12) { okk = false; log.fail("definedness-history", trace + " : FUS=SUM(WUA) is " + (udq_state.has("FUS") ? std::to_string(udq_state.get("FUS")) : std::string("undefined")) + ", expected " + std::to_string(sum)); }
+                    }
+                }
+                if (okk) { log.ok(); ++stats["definedness_history"]; }
+            }
+        }
         std::ofstream f(outdir + "/prop_stats.json");
         f << "{\n  \"checked\": " << log.checked << ",\n  \"failed\": " << log.failed;
         for (auto& kv : stats) f << ",\n  \"" << kv.first << "\": " << kv.second;
